@@ -21,6 +21,7 @@ META = {
 def check(ctx):
     dec = tables.mps_tables(ctx)
     tables.sv_tables(ctx, dec)
+    tables.operator_terms(ctx)
     pure.check(ctx, ["emu_sv.state_vector.StateVector", "emu_sv.density_matrix_state.DensityMatrix",
                      "emu_sv.dense_operator.DenseOperator", "emu_sv.sparse_operator.SparseOperator"],
                ["emu_sv.utils"])
